@@ -543,6 +543,11 @@ theorem group_conclLast {sts : List St} (h : NoStateAfterConcl sts) (i : Nat) : 
   intro a b ha hb hab
   exact hab (by rw [(mem_group.mp ha).2, (mem_group.mp hb).2])
 
+/-- Record-level sufficient condition for `WF` (used for concrete examples). -/
+theorem wf_of_records {rs : List Rec} (h : ∀ r ∈ rs, Ordered r.states ∧ NoStateAfterConcl r.states) : WF rs := by
+  intro r hr _ i
+  exact ⟨(h r hr).1.sublist (group_sublist _ i), group_conclLast (h r hr).2 i⟩
+
 theorem good_wf {s : TS} (hg : Good s) (hgd : s.guard = true) : WF s.records := by
   intro r hr _ i
   obtain ⟨j, hj⟩ := List.mem_iff_getElem?.mp hr
